@@ -541,4 +541,28 @@ P_C06_run(c, run) ==
                           \E x \in (st[i].x1 + 1)..(st[j].x0 - 1) :
                              \A y \in Min2(st[i].y0, st[j].y0)..Max2(st[i].y1, st[j].y1) : At(g, y, x) = BAR
 P_C06(c) == \A i \in 1..Len(c.runs) : P_C06_run(c, c.runs[i])
+
+(* ---- C10: all API routes agree; rendering is deterministic; render trees are reusable ------------- *)
+\* case.hist = the calls of one history on one configuration, with the abstract result of each:
+\*   oneshot(doc, w, route) | parse(doc) -> dom handle | tree(dom) -> tree handle | clone(tree) -> tree handle
+\*   | render(tree, w, route)      (handles are numbered in order of creation)
+\* every completed rendering of (doc, w), by whatever route and wherever in the history, has the same
+\* result (text or error kind)
+HistRenders(h) ==
+  FoldLeft(LAMBDA a, s :
+     CASE s.op = "parse" -> IF s.res.k = "ok" THEN [a EXCEPT !.doms = Append(@, s.doc)] ELSE a
+       [] s.op = "tree" -> IF s.res.k = "ok" THEN [a EXCEPT !.trees = Append(@, a.doms[s.dom])] ELSE a
+       [] s.op = "clone" -> [a EXCEPT !.trees = Append(@, a.trees[s.tree])]
+       [] s.op = "oneshot" -> [a EXCEPT !.out = Append(@, [doc |-> s.doc, w |-> s.w, res |-> s.res])]
+       [] s.op = "render" -> [a EXCEPT !.out = Append(@, [doc |-> a.trees[s.tree], w |-> s.w, res |-> s.res])]
+       [] OTHER -> a,
+     [doms |-> <<>>, trees |-> <<>>, out |-> <<>>], h).out
+P_C10(c) ==
+  "hist" \notin DOMAIN c \/
+  LET rs == HistRenders(c.hist) IN
+  /\ \A i \in 1..Len(c.hist) : c.hist[i].res.k \in {"ok", "narrow"}
+  /\ \A i, j \in 1..Len(rs) :
+        (i < j /\ rs[i].doc = rs[j].doc /\ rs[i].w = rs[j].w) =>
+           rs[i].res.k = rs[j].res.k /\ rs[i].res.lines = rs[j].res.lines
+  /\ \A i \in 1..Len(rs) : rs[i].w = 0 => rs[i].res.k = "narrow"
 =============================================================================
